@@ -23,6 +23,12 @@ pub fn id(b: &[u8; 20]) -> Id {
     Id::from_bytes(b).expect("20 bytes")
 }
 
+/// Pending until the virtual clock reaches `t` (the API futures are polled after every step of their node).
+async fn gate(sim: &Sim, t: u64) {
+    let sim = sim.clone();
+    futures_lite::future::poll_fn(move |_| if sim.now() >= t { std::task::Poll::Ready(()) } else { std::task::Poll::Pending }).await
+}
+
 impl Sim {
     pub fn put_immutable(&self, host: HostId, value: Vec<u8>) -> OpId {
         self.call(host, "put_immutable", move |d| async move {
@@ -54,6 +60,49 @@ impl Sim {
                 items.push((sim.now(), item));
             }
             Outcome::Mutable(items)
+        })
+    }
+    /// Like `get_mutable`, but the application opens the stream and does not read from it before the
+    /// virtual instant `release_at` (a slow consumer); then it drains it.
+    pub fn get_mutable_held(&self, host: HostId, pk: [u8; 32], salt: Option<Vec<u8>>, release_at: u64) -> OpId {
+        let sim = self.clone();
+        self.call(host, "get_mutable", move |d| async move {
+            let mut s = d.get_mutable(&pk, salt.as_deref(), None);
+            gate(&sim, release_at).await;
+            let mut items = vec![];
+            while let Some(item) = s.next().await {
+                items.push((sim.now(), item));
+            }
+            Outcome::Mutable(items)
+        })
+    }
+    pub fn get_peers_held(&self, host: HostId, info_hash: [u8; 20], release_at: u64) -> OpId {
+        let sim = self.clone();
+        self.call(host, "get_peers", move |d| async move {
+            let mut s = d.get_peers(id(&info_hash));
+            gate(&sim, release_at).await;
+            let mut items = vec![];
+            while let Some(item) = s.next().await {
+                items.push((sim.now(), item));
+            }
+            Outcome::Peers(items)
+        })
+    }
+    pub fn get_signed_peers_held(&self, host: HostId, info_hash: [u8; 20], release_at: u64) -> OpId {
+        let sim = self.clone();
+        self.call(host, "get_signed_peers", move |d| async move {
+            let mut s = d.get_signed_peers(id(&info_hash)).await;
+            gate(&sim, release_at).await;
+            let mut items = vec![];
+            while let Some(item) = s.next().await {
+                items.push((
+                    sim.now(),
+                    item.iter()
+                        .map(|a| (*a.key(), a.timestamp(), *a.signature()))
+                        .collect(),
+                ));
+            }
+            Outcome::SignedPeers(items)
         })
     }
     pub fn get_mutable_most_recent(&self, host: HostId, pk: [u8; 32], salt: Option<Vec<u8>>) -> OpId {
